@@ -97,7 +97,7 @@ def write_table(table, path):
 
 # ----------------------------------------------------------------------------- replay with crash sites
 
-def replay_robust(cases, work, name, env_extra=None, timeout_ms=3000, per_proc=PER_PROC, as_limit=AS_LIMIT):
+def replay_robust(cases, work, name, env_extra=None, timeout_ms=6000, per_proc=PER_PROC, as_limit=AS_LIMIT):
     """vlib.replay through the `robust` binary, in batches so that no process sees more than `per_proc`
     cases; joins the panic sites recorded by the binary into the verdicts of crashed processes."""
     out = []
@@ -278,8 +278,21 @@ def deep_case(c, proto):
 
 # ----------------------------------------------------------------------------- the check
 
+SEED = [1]
+
+
 def tlc(cfg, work, table_path, **kw):
-    return vlib.run_tlc("Robust", cfg, work, workers=kw.pop("workers", 8), timeout=kw.pop("timeout", 900),
+    """Run TLC on spec/<cfg> with the constant SEED of the cfg replaced by the check's --seed (the derived
+    cfg is written to the work directory; run_tlc accepts an absolute path)."""
+    with open(os.path.join(vlib.SPEC, cfg)) as f:
+        text = f.read()
+    text, n = re.subn(r"(?m)^(\s*SEED\s*=\s*)\d+\s*$", lambda m: m.group(1) + str(SEED[0] % 65521), text)
+    if n != 1:
+        raise vlib.ToolError(f"{cfg}: no SEED constant")
+    derived = os.path.join(work, cfg)
+    with open(derived, "w") as f:
+        f.write(text)
+    return vlib.run_tlc("Robust", derived, work, workers=kw.pop("workers", 8), timeout=kw.pop("timeout", 900),
                         env_extra={"ROBUST_TABLE": table_path}, **kw)
 
 
@@ -380,13 +393,34 @@ def part_deep(r, work, table_path, quick):
                                      as_limit=AS_LIMIT_DEEP), "deep")
 
 
+def replay_matrix(r, cases, work, name, env_extra=None):
+    """Shared engines: a case whose own SET-UP unit fails met an engine that an earlier case of the batch
+    left unusable.  Such a victim is re-run on a fresh engine and judged there; the interference itself is
+    a violation of the property (the culprit is among the cases that ran before it in the same process)."""
+    vs = replay_robust(cases, work, name, env_extra=env_extra)
+    victims = [i for i, v in enumerate(vs) if not v["pass"] and v.get("step") == 0 and v["got"]
+               and not v["why"].startswith("process ") and "panic" not in v["got"][0]["class"]]
+    if victims:
+        again = [dict(cases[i], fresh=True) for i in victims]
+        v2 = replay_robust(again, work, name + "v", env_extra=env_extra)
+        jobs = max(1, min(JOBS, (min(len(cases), PER_PROC * JOBS) + 19) // 20))
+        for i, c, v in zip(victims, again, v2):
+            if v["pass"]:
+                b0 = (i // (PER_PROC * JOBS)) * PER_PROC * JOBS
+                before = [cases[j]["id"] for j in range(i - jobs, b0 - 1, -jobs)][:30]
+                r.violation(f"engine unusable for case {c['id']} after earlier cases of the batch: {vs[i]['why'][:200]}",
+                            {"id": "interference-" + c["id"], "victim": c["id"], "ran_before_in_same_process": before})
+            cases[i], vs[i] = c, v
+    return vs
+
+
 def part_matrix(r, work, table, table_path, quick, rnd):
     nojit = {"STEEL_JIT": "false"}
     # round 1: canaries
     res = tlc("MC_Robust_canary.cfg", work, table_path)
     r.add_tlc(res)
     c1, _ = matrix_cases(res["cases"])
-    v1 = account(r, c1, replay_robust(c1, work, "c07m1"), "matrix round 1")
+    v1 = account(r, c1, replay_matrix(r, c1, work, "c07m1"), "matrix round 1")
     # crash budget: a builtin whose canaries crash / hang >= CAP_AT times, every time attributed to a
     # known finding, is capped in round 2
     per = collections.defaultdict(lambda: [0, 0])
@@ -408,13 +442,13 @@ def part_matrix(r, work, table, table_path, quick, rnd):
     c2, _ = matrix_cases(res["cases"])
     have = {c["id"] for c in c1}
     c2 = [c for c in c2 if c["id"] not in have]
-    account(r, c2, replay_robust(c2, work, "c07m2"), "matrix round 2")
+    account(r, c2, replay_matrix(r, c2, work, "c07m2"), "matrix round 2")
     # JIT off: a seeded sample of both rounds
     pool = c1 + c2
     sample = rnd.sample(pool, min(len(pool), 8000 if quick else 40000))
     sample.sort(key=lambda c: c["id"])
     cs = [dict(c, id=c["id"] + "-nojit", tag=c["tag"] + "|nojit") for c in sample]
-    account(r, cs, replay_robust(cs, work, "c07mn", env_extra=nojit), "matrix, JIT off")
+    account(r, cs, replay_matrix(r, cs, work, "c07mn", env_extra=nojit), "matrix, JIT off")
 
 
 def run(tier, seed):
@@ -424,6 +458,7 @@ def run(tier, seed):
     os.dup2(os.open(os.devnull, os.O_RDONLY), 0)
     r = vlib.Result(PROP, tier, seed)
     rnd = random.Random(seed)
+    SEED[0] = seed
     quick = tier == "quick"
 
     table, stats = dump_table(work)
